@@ -1607,6 +1607,18 @@ class MEDDLY::forest {
         /// Mark all registered dd_edges.
         void markAllRoots();
 
+#ifdef MEDDLY_VERIF
+        /// Verification hook (read-only): add 1 to counts[p] for every
+        /// registered dd_edge whose root is non-terminal node p.
+        /// Returns the number of registered dd_edges.
+        unsigned verif_countRoots(std::vector <unsigned long> &counts) const;
+
+        /// Verification hook (read-only): cache count stored for handle p.
+        inline unsigned long verif_cacheCount(node_handle p) const {
+            return nodeHeaders.getNodeCacheCount(p);
+        }
+#endif
+
     // ------------------------------------------------------------
     private: // Private methods for root edge registry
     // ------------------------------------------------------------
